@@ -58,7 +58,7 @@ func (s *spool) describe() string {
 
 func TestPropStableswap(t *testing.T) {
 	ctx := testCtx()
-	drv.Check(t, drv.Cfg{Name: "stableswap-math", Rule: stableRule, Quick: 1200, Thorough: 60000}, func(rt *rapid.T, c *drv.Case) {
+	drv.Check(t, drv.Cfg{Name: "stableswap-math", Rule: stableRule, Quick: 1200, Thorough: 40000}, func(rt *rapid.T, c *drv.Case) {
 		n := rapid.IntRange(2, 8).Draw(rt, "assets")
 		if rapid.IntRange(0, 1).Draw(rt, "two") == 0 {
 			n = 2
